@@ -15,6 +15,7 @@ import (
 	"time"
 
 	"govc/engine"
+	"govc/smt"
 
 	"golang.org/x/tools/go/ssa"
 	"golang.org/x/tools/go/ssa/ssautil"
@@ -106,7 +107,9 @@ func check(argv []string) int {
 	verbose := fs.Bool("v", false, "verbose")
 	tmoFlag := fs.Int("timeout", 0, "per-obligation timeout seconds")
 	noEvidence := fs.Bool("no-evidence", false, "do not write evidence (debug)")
+	debugInst := fs.Bool("debug-inst", false, "print quantifier instantiation")
 	fs.Parse(argv)
+	smt.DebugInst = *debugInst
 	if env := os.Getenv("VERIF_TIER"); env != "" && *tier == "" {
 		*tier = env
 	}
@@ -230,6 +233,13 @@ func check(argv []string) int {
 		fmt.Fprintln(os.Stderr, "scripts in", tmpdir)
 	}
 	genSecs := time.Since(t0).Seconds()
+	if *keep {
+		var ib strings.Builder
+		for i, o := range all {
+			fmt.Fprintf(&ib, "o%05d %s\n", i, o.Name)
+		}
+		os.WriteFile(filepath.Join(tmpdir, "index.txt"), []byte(ib.String()), 0o644)
+	}
 	ors := engine.Discharge(all, tmo, 16, tmpdir)
 
 	// classification
